@@ -24,7 +24,7 @@ def run(ctx):
         fw.report_corr(ctx, "cl", res2)
     # every other suite that drives real blocks reports a FinalizeBlock error / panic as `no_halt`: any such verdict is a
     # violation of THIS property, whichever module's hook caused it (known ones are matched by their class features)
-    sizes = {"share": (12, 200), "da": (25, 800), "gauge": (2, 60), "mint": (2, 40), "govtally": (3, 60), "fee": (2, 20)}
+    sizes = {"share": (12, 200), "da": (60, 800), "gauge": (2, 60), "mint": (2, 40), "govtally": (3, 60), "fee": (2, 20)}
     for suite, (nq, nt) in sizes.items():
         r = fw.corr(ctx, suite, nt if ctx.thorough() else nq, driver_suite=False, timeout=1500)
         if r is None:
